@@ -10,8 +10,8 @@ interpreter shim, generated code -O0..-O3 and the lazy-generation thunk.  The re
 validated by spec/TraceABI.tla, which recomputes every expectation from the raw machine image."""
 import json, os, random, struct, subprocess, sys, time, copy
 import vlib, c05
-from vlib import Check, run_tlc, tlc_ok, MachineryError
-from c05 import INT_T, BLK_T, defbytes, neight, rnd_f64, rnd_arg, case_label
+from vlib import Check, MachineryError
+from c05 import BLK_T, defbytes, neight, rnd_f64, case_label
 
 PROP = "C06"
 ENG_NAME = {"i": "interp-shim", "0": "gen-O0", "1": "gen-O1", "2": "gen-O2", "3": "gen-O3", "L": "lazy-gen(first call)", "l": "lazy-gen(second call)"}
@@ -37,14 +37,6 @@ def param_decl(a, i):
     if t in BLK_T or t == "rblk":
         return "%s:%d(a%d)" % ("blk" if t == "blk0" else t, a["n"], i)
     return "%s:a%d" % (t, i)
-
-
-def nwords(a):
-    if a["t"] == "ld":
-        return 2
-    if a["t"] in BLK_T:
-        return neight(a)
-    return 1
 
 
 class Body:
@@ -465,9 +457,6 @@ def sig_label(j):
 
 
 def report(ck, fails, index, hard, cured):
-    for j, eng, key, txt in hard:
-        k = cured.get((j["jid"], eng), key)
-        ck.violation(k, "%s  %s: %s%s" % (sig_label(j), ENG_NAME[eng], txt, " [cured by the proposed repair]" if k != key else ""), replay_rec(j, eng))
     for (jid, eng), fl in sorted(fails.items()):
         j = index[(jid, eng)]
         keys = {}
@@ -480,6 +469,9 @@ def report(ck, fails, index, hard, cured):
             continue
         for key, f in keys.items():
             ck.violation(key, "%s  %s" % (sig_label(j), fail_text(j, eng, f)), replay_rec(j, eng))
+    for j, eng, key, txt in hard:
+        k = cured.get((j["jid"], eng), key)
+        ck.violation(k, "%s  %s: %s%s" % (sig_label(j), ENG_NAME[eng], txt, " [cured by the proposed repair]" if k != key else ""), replay_rec(j, eng))
 
 
 def replay_rec(j, eng):
@@ -503,7 +495,7 @@ def job_from_rec(rec):
 # executions are re-run, with identical inputs, on copies of the tree under test to which the repairs in
 # findings/proposed/ have been applied (a series, each step adding one repair).  The key is the repair that first
 # makes the execution pass.  Everything the repairs do not cure keeps its raw key and alarms.  When a repair does
-# not apply to the tree under test any more, the series stops there (nothing is attributed to it).
+# not apply to the tree under test (any more), it is skipped and nothing is attributed to it.
 FIX_SERIES = [("callee:ld_stack_unaligned", "C05-ld-stack-align.diff"),
               ("callee:gen_va_start", "C06-gen-va-start.diff"),          # (edits the loop the previous repair touches)
               ("callee:va_block_arg_sse", "C06-va-block-arg-sse.diff"),
@@ -512,7 +504,7 @@ FIX_SERIES = [("callee:ld_stack_unaligned", "C05-ld-stack-align.diff"),
 
 def patched_harnesses():
     """[(key, harness exe)] for the prefixes of FIX_SERIES that apply and build; built in parallel subprocesses"""
-    import glob, shutil, hashlib
+    import glob, shutil
     files = [f for f in glob.glob(os.path.join(vlib.REPO, "*.c")) + glob.glob(os.path.join(vlib.REPO, "*.h"))]
     pdir = os.path.join(vlib.VERIF, "findings", "proposed")
     patches = [os.path.join(pdir, p) for _, p in FIX_SERIES]
@@ -521,7 +513,7 @@ def patched_harnesses():
     for k, (key, pf) in enumerate(FIX_SERIES):
         path = os.path.join(pdir, pf)
         if not os.path.exists(path):
-            break
+            continue
         d = os.path.join(vlib.OUT, "build", "c06fix-%s-%d" % (th, k + 1))
         if not os.path.exists(os.path.join(d, ".ok")):
             shutil.rmtree(d, ignore_errors=True)
@@ -530,9 +522,10 @@ def patched_harnesses():
                 shutil.copy(f, d)
             rc, o, e = vlib.sh("patch -p1 -s -f -d %s < %s" % (d, path), timeout=60)
             if rc != 0:
-                vlib.log("  c06: proposed repair %s does not apply to the tree under test; attribution stops here" % pf)
+                # e.g. the repair has been committed to the tree under test already: nothing is attributed to it
+                vlib.log("  c06: proposed repair %s does not apply to the tree under test; skipped" % pf)
                 shutil.rmtree(d, ignore_errors=True)
-                break
+                continue
             open(os.path.join(d, ".ok"), "w").write("ok")
         dirs.append((key, d))
         prev = d
@@ -651,7 +644,7 @@ def selftest():
     cases, _ = c05.tlc_cases("quick", want=("res",))
     cases = [c for c in cases if len(c["res"]) >= 2][:6]
     workdir = vlib.scratch_dir("c06s-")
-    jobs = plan(cases, "quick", random.Random(11))
+    jobs = plan(cases, "thorough", random.Random(11))[::2][:6]
     muts = ["none", "callee_saved", "rsp", "mxcsr", "param", "result"]
     for j, m in zip(jobs, muts):
         j["mut"] = m
@@ -674,7 +667,8 @@ def selftest():
     for j in jobs:
         fl = fails.get((j["jid"], "2"), [])
         kinds = sorted(set(f["k"] for f in fl))
-        want = {"none": [], "callee_saved": ["callee_saved"], "rsp": ["rsp"], "mxcsr": ["mxcsr_control"], "param": ["param"], "result": ["result"]}[j["mut"]]
+        want = {"none": [], "callee_saved": ["callee_saved"], "rsp": ["rsp"], "mxcsr": ["mxcsr_control"], "param": ["param", "result"],   # the returned checksum is checked against the recorded words
+                "result": ["result"]}[j["mut"]]
         ok = kinds == want
         print("selftest corrupt=%-12s -> TraceABI reports %s : %s" % (j["mut"], kinds or "nothing", "ok" if ok else "UNEXPECTED"))
         bad += 0 if ok else 1
